@@ -42,6 +42,9 @@ type fileDesc struct {
 	Devs   []string `json:"devs,omitempty"`
 	Tag    string   `json:"tag,omitempty"`
 	Rich   bool     `json:"rich,omitempty"`
+	// bit 0: Spec-level intelRdt; bit 1: intelRdt on the first device; bit 2: device nodes on the last device;
+	// bit 3: several hook kinds on the Spec
+	Variant int `json:"variant,omitempty"`
 }
 
 type layoutDesc struct {
@@ -58,11 +61,27 @@ func templateSpec(f fileDesc) *specs.Spec {
 			Hooks: []*specs.Hook{{HookName: "prestart", Path: "/bin/spec-" + f.Tag}},
 		}
 	}
-	for _, d := range f.Devs {
+	if f.Variant&1 != 0 {
+		s.ContainerEdits.IntelRdt = &specs.IntelRdt{ClosID: "spec-" + f.Tag, L3CacheSchema: "L3:0=f"}
+		if len(s.ContainerEdits.Env) == 0 {
+			s.ContainerEdits.Env = []string{"RDT=" + f.Tag}
+		}
+	}
+	if f.Variant&8 != 0 {
+		s.ContainerEdits.Hooks = append(s.ContainerEdits.Hooks, &specs.Hook{HookName: "startContainer", Path: "/bin/start-" + f.Tag},
+			&specs.Hook{HookName: "poststop", Path: "/bin/stop-" + f.Tag, Args: []string{"stop", f.Tag}})
+	}
+	for i, d := range f.Devs {
 		e := specs.ContainerEdits{Env: []string{"FROM=" + f.Tag, "DEV=" + d}}
 		if f.Rich {
 			e.Mounts = []*specs.Mount{{HostPath: "/h/" + f.Tag, ContainerPath: "/c/" + d}}
 			e.AdditionalGIDs = []uint32{uint32(len(f.Tag) + 1)}
+		}
+		if f.Variant&2 != 0 && i == 0 {
+			e.IntelRdt = &specs.IntelRdt{ClosID: "dev-" + f.Tag + d, MemBwSchema: "MB:0=10", EnableCMT: true}
+		}
+		if f.Variant&4 != 0 && i == len(f.Devs)-1 {
+			e.DeviceNodes = []*specs.DeviceNode{{Path: "/dev/" + f.Tag + "-" + d, Type: "c", Major: int64(len(f.Tag)), Minor: int64(i), Permissions: "rw"}}
 		}
 		s.Devices = append(s.Devices, specs.Device{Name: d, ContainerEdits: e})
 	}
@@ -92,13 +111,18 @@ func genLayout(rng *rand.Rand) layoutDesc {
 			tag++
 			f := fileDesc{Name: name, Tag: fmt.Sprintf("%s%d", p, tag),
 				Vendor: poolVendors[rng.Intn(len(poolVendors))], Class: poolClasses[rng.Intn(len(poolClasses))], Rich: rng.Intn(2) == 0}
-			// many files define d0 so that shadowing and conflicts are frequent
+			// many files define d0 so that shadowing and conflicts are frequent; some define only the others,
+			// so that one request can take devices of one kind from several files
 			f.Devs = []string{"d0"}
+			if rng.Intn(4) == 0 {
+				f.Devs = nil
+			}
 			for _, d := range poolDevs[1:] {
-				if rng.Intn(3) == 0 {
+				if rng.Intn(3) == 0 || (f.Devs == nil && d == poolDevs[len(poolDevs)-1]) {
 					f.Devs = append(f.Devs, d)
 				}
 			}
+			f.Variant = rng.Intn(16)
 			if rng.Intn(4) == 0 {
 				f.Vendor, f.Class = "v1.com", "c1"
 			}
@@ -150,8 +174,29 @@ func (cacheStream) Generate(rng *rand.Rand, tier string, emit func(Case)) {
 	if tier == "thorough" {
 		n = 6000
 	}
-	for i := 0; i < n; i++ {
-		l := genLayout(rng)
+	// fixed layouts: k files of one directory define the same device (k = 2..5), alone, above and below
+	// a directory with a single definition
+	var fixed []layoutDesc
+	names := []string{"a.json", "b.yaml", "c.json", "d.yaml", "g.json"}
+	for k := 2; k <= 5; k++ {
+		var files []fileDesc
+		for i := 0; i < k; i++ {
+			files = append(files, fileDesc{Name: names[i], Kind: "valid", Vendor: "v1.com", Class: "c1", Devs: []string{"d0"}, Tag: fmt.Sprintf("K%d", i), Rich: i%2 == 0})
+		}
+		single := []fileDesc{{Name: "h.yaml", Kind: "valid", Vendor: "v1.com", Class: "c1", Devs: []string{"d0", "d1"}, Tag: "S", Rich: true}}
+		fixed = append(fixed,
+			layoutDesc{Phys: map[string][]fileDesc{"A": files}, Dirs: []string{"p:A"}},
+			layoutDesc{Phys: map[string][]fileDesc{"A": files, "B": single}, Dirs: []string{"p:B", "p:A"}},
+			layoutDesc{Phys: map[string][]fileDesc{"A": files, "B": single}, Dirs: []string{"p:A", "p:B"}},
+			layoutDesc{Phys: map[string][]fileDesc{"A": files, "B": single}, Dirs: []string{"p:A", "p:B", "p:A"}})
+	}
+	for i := 0; i < n+len(fixed); i++ {
+		var l layoutDesc
+		if i < len(fixed) {
+			l = fixed[i]
+		} else {
+			l = genLayout(rng)
+		}
 		lj, _ := json.Marshal(l)
 		var lm map[string]any
 		_ = json.Unmarshal(lj, &lm)
@@ -344,6 +389,35 @@ func (cacheStream) Execute(c Case) {
 			vs = append(vs, map[string]any{"vendor": hx(v), "paths": hxList(paths)})
 		}
 		obs["vendorspecs"] = vs
+		// derived cases: injections that resolve — every listed device in listing order; reversed with a
+		// repetition; a random selection (the random requests of the generator mostly hit an unknown name)
+		if devs := cache.ListDevices(); len(devs) > 0 && c["nospawn"] == nil {
+			rev := make([]string, 0, len(devs)+1)
+			for i := len(devs) - 1; i >= 0; i-- {
+				rev = append(rev, devs[i])
+			}
+			rev = append(rev, devs[len(devs)/2])
+			var sel []string
+			h := 0
+			for _, d := range devs {
+				h = h*31 + len(d) + int(d[len(d)-1])
+			}
+			for i, d := range devs {
+				if (h>>uint(i%16))&1 == 0 {
+					sel = append(sel, d)
+				}
+			}
+			var spawned []Case
+			for k, req := range [][]string{devs, rev, sel} {
+				if len(req) == 0 {
+					continue
+				}
+				sp := Case{"stream": "cache", "op": "inject", "layout": c["layout"], "req": hxList(req), "niloci": false, "ocikind": k}
+				cacheStream{}.Execute(sp)
+				spawned = append(spawned, sp)
+			}
+			c["spawn"] = spawned
+		}
 	case "inject":
 		req := unhxList(c["req"])
 		nilOci, _ := c["niloci"].(bool)
